@@ -33,11 +33,29 @@
 //!                  key: token absent - nothing may be judged, the requests must simply succeed).
 //!  * `tab=<1|0>`   0 = the PREPARED response names a keyspace the cluster metadata does not know (`nx.t`): the statement is
 //!                  then not token-aware; the oracle only demands that no request is lost.
+//!
+//! Further optional words (audit round 4; defaults = the behaviour above):
+//!  * `api=b` `bfirst=<p|u>`  `Session::batch` of two statements (`session.rs:1031-1080`, `peek_first_token`): `p` = the first
+//!                  statement is the prepared INSERT bound to the key (the second one carries ANOTHER key): the BATCH frame
+//!                  is judged like an EXECUTE frame of that key; `u` = the first statement is unprepared and without values:
+//!                  no token - the frames must merely arrive.
+//!  * `pages=2`     (api=i stmt=sel) the node answers page 1 with a paging state. The request for page 2 must first arrive
+//!                  at the coordinator of page 1 or at an owner (`pager.rs:337-365`); that node answers "is bootstrapping",
+//!                  so the same page is asked for again on the next target of the plan built from the pager's pages-2+
+//!                  `RoutingInfo` literal (`pager.rs:1017-1049`): another permitted replica while there is one (the NEXT one
+//!                  in ring order when routed as an LWT), on its owning shard.
+//!  * `lwtmark=1`   the nodes advertise `SCYLLA_LWT_ADD_METADATA_MARK` and set the mark in the PREPARED flags:
+//!                  `is_confirmed_lwt()` must be true and - at an ordinary consistency, SimpleStrategy - the first frame must
+//!                  arrive at the primary replica.
+//!  * `spref=<dc>` `svia=<p|l>`  the STATEMENT (and the batch) names its own execution profile (`p`) or load-balancing policy
+//!                  (`l`) preferring datacenter `spref`; the session's `pref` (none, or another datacenter) must then not be
+//!                  what the request is routed by (`session.rs:1797-1800`, `execution.rs:139-142`, `pager.rs:148-161`).
 use super::common::*;
 use crate::mockcluster::*;
 use crate::mocknode::{Parsed, ShardMode};
 use crate::rng::Rng;
 use crate::{Ctx, Tier};
+use futures::StreamExt;
 use std::time::Duration;
 
 pub fn generate(rng: &mut Rng, tier: Tier, emit: &mut dyn FnMut(String)) {
@@ -103,6 +121,40 @@ pub fn generate(rng: &mut Rng, tier: Tier, emit: &mut dyn FnMut(String)) {
             tab
         ));
     }
+    // the Session glue, second part: the session's datacenter preference seen through the pager, pages after the first,
+    // the LWT mark of PREPARED, the statement's own profile / policy, batches
+    let n_glue2 = if tier == Tier::Quick { 20 } else { 160 };
+    for i in 0..n_glue2 {
+        let sh = *rng.pick(&[0u64, 2, 3, 4]);
+        let seed = rng.below(1 << 32);
+        let keys = if tier == Tier::Quick { 10 } else { 16 };
+        let vn = *rng.pick(&[1u64, 4]);
+        // two datacenters of two nodes, NetworkTopologyStrategy or SimpleStrategy
+        let two_dc = |rng: &mut Rng| if rng.bool() { format!("n=4 dcs=2 racks=1 sh={} mix=0 nat=0 msb=12 vn={} st=N{}", sh, vn, 1 + rng.below(2)) } else { format!("n=4 dcs=2 racks=1 sh={} mix=0 nat=0 msb=12 vn={} st=S{}", sh, vn, 1 + rng.below(4)) };
+        let nodes = 2 + rng.below(3);
+        let one_dc = |rng: &mut Rng, min_rf: u64| format!("n={} dcs=1 racks=1 sh={} mix=0 nat=0 msb=12 vn={} st=S{}", nodes, sh, vn, min_rf + rng.below(nodes + 1 - min_rf));
+        let line = match i % 10 {
+            0 => format!("{} pref={} fo=0 seed={} keys={} api=i stmt={}", two_dc(rng), 1 + rng.below(2), seed, keys, if rng.bool() { "ins" } else { "sel" }),
+            1 => format!("{} pref=0 fo=0 seed={} keys={} api=i stmt=sel pages=2", one_dc(rng, 2), seed, keys),
+            2 => format!("{} pref={} fo=0 seed={} keys={} api=i stmt=sel pages=2", two_dc(rng), 1 + rng.below(2), seed, keys),
+            3 => format!("{} pref=0 fo=0 seed={} keys={} api=u lwtmark=1", one_dc(rng, 1), seed, keys),
+            4 => format!("{} pref=0 fo=0 seed={} keys={} api=i stmt=sel lwtmark=1 pages={}", one_dc(rng, 2), seed, keys, 1 + rng.below(2)),
+            5 => format!("{} pref=0 fo=0 seed={} keys={} api={} spref={} svia=p", two_dc(rng), seed, keys, if rng.bool() { "u" } else { "i" }, 1 + rng.below(2)),
+            6 => {
+                // the session prefers the OTHER datacenter
+                let sp = 1 + rng.below(2);
+                format!("{} pref={} fo=0 seed={} keys={} api={} spref={} svia={}", two_dc(rng), 3 - sp, seed, keys, if rng.bool() { "u" } else { "i" }, sp, if rng.bool() { "p" } else { "l" })
+            }
+            7 => format!("{} pref=0 fo=0 seed={} keys={} api=b bfirst=p", one_dc(rng, 1), seed, keys),
+            8 => format!("{} pref=0 fo=0 seed={} keys={} api=b bfirst=u", one_dc(rng, 1), seed, keys),
+            _ => match rng.below(3) {
+                0 => format!("{} pref=0 fo=0 seed={} keys={} api=b bfirst=p spref={} svia={}", two_dc(rng), seed, keys, 1 + rng.below(2), if rng.bool() { "p" } else { "l" }),
+                1 => format!("{} pref={} fo=0 seed={} keys={} api=b bfirst=p", two_dc(rng), 1 + rng.below(2), seed, keys),
+                _ => format!("{} pref=0 fo=0 seed={} keys={} api=b bfirst=p lwt=1", one_dc(rng, 1), seed, keys),
+            },
+        };
+        emit(format!("e2e route {}", line));
+    }
     // node restarts with new sharding parameters (`rs=`): same count / other ignore_msb, other count / same ignore_msb,
     // both, sharded <-> unsharded
     let n_restart = if tier == Tier::Quick { 16 } else { 160 };
@@ -145,6 +197,27 @@ pub fn generate(rng: &mut Rng, tier: Tier, emit: &mut dyn FnMut(String)) {
     }
 }
 
+enum ShardVerdict {
+    Ok,
+    /// behind the NAT: the node had no settled connection of the owning shard
+    NoConn,
+    Wrong(String),
+}
+
+/// `lwtmark=1`: the mock nodes advertise `SCYLLA_LWT_ADD_METADATA_MARK` in SUPPORTED for the duration of the case.
+struct MarkGuard;
+impl MarkGuard {
+    fn set(on: bool) -> MarkGuard {
+        ADVERTISE_LWT_MARK.store(on, std::sync::atomic::Ordering::SeqCst);
+        MarkGuard
+    }
+}
+impl Drop for MarkGuard {
+    fn drop(&mut self) {
+        ADVERTISE_LWT_MARK.store(false, std::sync::atomic::Ordering::SeqCst);
+    }
+}
+
 pub fn gen_keys(seed: u64, k: usize) -> Vec<Vec<u8>> {
     let mut rng = Rng::new(seed ^ 0x6b65_7973);
     let mut keys: Vec<Vec<u8>> = Vec::new();
@@ -174,9 +247,21 @@ pub fn run(words: &[&str], ctx: &mut Ctx) -> String {
     if pref as usize > shape.dcs || nkeys > 500 {
         return "bad-case".into();
     }
-    let api_iter = match p.str("api") {
-        None | Some("u") => false,
-        Some("i") => true,
+    let (api_iter, api_batch) = match p.str("api") {
+        None | Some("u") => (false, false),
+        Some("i") => (true, false),
+        Some("b") => (false, true),
+        _ => return "bad-case".into(),
+    };
+    let (Some(pages), Some(lwtmark), Some(spref)) = (p.num_or("pages", 1), p.num_or("lwtmark", 0), p.num_or("spref", 0)) else { return "bad-case".into() };
+    let svia_policy = match p.str("svia") {
+        None | Some("p") => false,
+        Some("l") => true,
+        _ => return "bad-case".into(),
+    };
+    let bfirst_prepared = match p.str("bfirst") {
+        None | Some("p") => true,
+        Some("u") => false,
         _ => return "bad-case".into(),
     };
     let Some(lwt) = p.num_or("lwt", 0) else { return "bad-case".into() };
@@ -190,6 +275,21 @@ pub fn run(words: &[&str], ctx: &mut Ctx) -> String {
     if lwt > 1 || tab_known > 1 || (lwt == 1 && (pref > 0 || fo > 0)) {
         return "bad-case".into();
     }
+    if !(1..=2).contains(&pages) || lwtmark > 1 || spref as usize > shape.dcs {
+        return "bad-case".into();
+    }
+    // pages 2+ exist only for a SELECT read through the pager; the LWT cases are judged without a datacenter preference;
+    // a batch is made of the INSERT
+    if (pages == 2 && !(api_iter && p.str("stmt") == Some("sel") && tab_known == 1 && p.str("rs").is_none_or(|r| r == "-")))
+        || (lwtmark == 1 && (pref > 0 || spref > 0))
+        || (spref > 0 && (lwt == 1 || fo > 0))
+        || (api_batch && (!matches!(p.str("stmt"), None | Some("ins")) || tab_known == 0))
+    {
+        return "bad-case".into();
+    }
+    // the preference the oracle judges by: the statement's own profile / policy wins over the session's
+    let pref = if spref > 0 { spref } else { pref };
+    let session_pref = p.num_or("pref", 0).unwrap_or(0);
     let mut topo = shape.topology();
     if mix != 0 && shape.shards >= 2 {
         for (i, n) in topo.nodes.iter_mut().enumerate() {
@@ -229,12 +329,17 @@ pub fn run(words: &[&str], ctx: &mut Ctx) -> String {
     }
     let rt = runtime(1);
     rt.block_on(async {
-        // PREPARE: the standard answer, or (tab=0) the same statement on a keyspace the metadata does not know
-        let handler: ClusterHandler = if tab_known == 1 {
-            with_std_prepare(|_| vec![act_void()])
-        } else {
-            Box::new(move |r: &Req| match &r.parsed {
-                Parsed::Prepare { text } => {
+        // PREPARE: the standard answer, or (tab=0) the same statement on a keyspace the metadata does not know; with
+        // `lwtmark=1` the nodes advertise the LWT-mark extension and set the mark in the flags of the PREPARED metadata.
+        // EXECUTE with `pages=2`: page 1 of a key carries a paging state; the FIRST request for page 2 of a key is answered
+        // with "is bootstrapping" (retried on the next target of the plan), every later one with the last page.
+        let _mark_guard = MarkGuard::set(lwtmark == 1);
+        let mut page2_seen: std::collections::HashSet<Vec<u8>> = std::collections::HashSet::new();
+        let handler: ClusterHandler = Box::new(move |r: &Req| match &r.parsed {
+            Parsed::Prepare { text } => {
+                let mut body = if tab_known == 1 {
+                    std_prepared(text)
+                } else {
                     let marks = text.matches('?').count();
                     let mut bind: Vec<(&str, CqlT)> = Vec::new();
                     if marks >= 1 {
@@ -244,13 +349,29 @@ pub fn run(words: &[&str], ctx: &mut Ctx) -> String {
                         bind.push(("v", CqlT::Native(T_INT)));
                     }
                     let pk: &[u16] = if marks >= 1 { &[0] } else { &[] };
-                    vec![Act::Respond(crate::mocknode::RESP_RESULT, prepared_body(&stmt_id(text), &Specs::new("nx", "t", &bind), pk, None))]
+                    prepared_body(&stmt_id(text), &Specs::new("nx", "t", &bind), pk, None)
+                };
+                if lwtmark == 1 {
+                    // [int kind][short bytes id][int flags]: the mark is the top bit of the flags
+                    let off = 4 + 2 + stmt_id(text).len();
+                    let flags = u32::from_be_bytes([body[off], body[off + 1], body[off + 2], body[off + 3]]) | LWT_MARK;
+                    body[off..off + 4].copy_from_slice(&flags.to_be_bytes());
                 }
-                _ => vec![act_void()],
-            })
-        };
+                vec![Act::Respond(crate::mocknode::RESP_RESULT, body)]
+            }
+            Parsed::Execute { params, .. } if pages == 2 => {
+                let key = params.values.first().cloned().flatten();
+                let row = vec![key.clone(), c_int(0)];
+                match (&params.paging_state, key) {
+                    (None, _) => vec![Act::Respond(crate::mocknode::RESP_RESULT, rows_body(&row_specs(), !params.skip_metadata, Some(b"page-2"), &[row]))],
+                    (Some(_), Some(k)) if page2_seen.insert(k.clone()) => vec![act_error(0x1002, "bootstrapping", &[])],
+                    (Some(_), _) => vec![Act::Respond(crate::mocknode::RESP_RESULT, rows_body(&row_specs(), !params.skip_metadata, None, &[row]))],
+                }
+            }
+            _ => vec![act_void()],
+        });
         let cluster = MockCluster::start(topo, handler).await;
-        let pref_dc = (pref > 0).then(|| Shape::dc_name(pref as usize - 1));
+        let pref_dc = (session_pref > 0).then(|| Shape::dc_name(session_pref as usize - 1));
         let session = match connect_with(&cluster, nat == 0, |b| match &pref_dc {
             None if lwt == 1 => {
                 // routed as an LWT: serial consistency (`RoutingInfo::should_route_as_lwt`)
@@ -274,15 +395,46 @@ pub fn run(words: &[&str], ctx: &mut Ctx) -> String {
             Ok(s) => s,
             Err(skip) => return skip,
         };
-        let ps = match session.prepare(stmt_text).await {
+        let mut ps = match session.prepare(stmt_text).await {
             Ok(ps) => ps,
             Err(_) => return "e2e-skip prepare-failed".to_owned(),
         };
+        if ps.is_confirmed_lwt() != (lwtmark == 1) {
+            ctx.fail(format!("e2e route: the PREPARED response {} the LWT mark, is_confirmed_lwt() = {}", if lwtmark == 1 { "carries" } else { "does not carry" }, ps.is_confirmed_lwt()));
+        }
+        // `spref`: the STATEMENT names its own profile (`svia=p`) or load-balancing policy (`svia=l`); the session's
+        // default profile (no preference, or `pref` = another datacenter) must then not be the one consulted
+        let mut batch = scylla::statement::batch::Batch::new(scylla::statement::batch::BatchType::Unlogged);
+        if spref > 0 {
+            use scylla::client::execution_profile::ExecutionProfile;
+            use scylla::policies::load_balancing::DefaultPolicy;
+            let lb = DefaultPolicy::builder().prefer_datacenter(Shape::dc_name(spref as usize - 1)).build();
+            if svia_policy {
+                ps.set_load_balancing_policy(Some(lb.clone()));
+                batch.set_load_balancing_policy(Some(lb));
+            } else {
+                let handle = ExecutionProfile::builder().load_balancing_policy(lb).build().into_handle();
+                ps.set_execution_profile_handle(Some(handle.clone()));
+                batch.set_execution_profile_handle(Some(handle));
+            }
+        }
+        if api_batch {
+            // two statements; the token is the one of the FIRST statement's values when that statement is prepared
+            // (`peek_first_token`), absent when it is not
+            if bfirst_prepared {
+                batch.append_statement(ps.clone());
+            } else {
+                batch.append_statement("INSERT INTO ks.t (pk, v) VALUES (0x00, 0)");
+            }
+            batch.append_statement(ps.clone());
+        }
+        let ps = ps;
         let mut failed = 0;
         let mut at_replica = 0;
         let mut at_shard = 0;
         let mut unjudged = 0;
         let mut total_keys = 0;
+        let mut page2 = 0;
         for phase in 0..=restarts.len().min(1) {
             if phase == 1 {
                 // node restarts with new sharding parameters, one after another; then the driver gets time to reconnect
@@ -300,36 +452,108 @@ pub fn run(words: &[&str], ctx: &mut Ctx) -> String {
         let marks = stmt_text.matches('?').count();
         for (i, k) in keys.iter().enumerate() {
             // (not what is judged here: the first frame of every request is)
-            let ok = match (api_iter, marks) {
+            let ok = if api_batch {
+                // the second statement carries ANOTHER key: it must not be the one the batch is routed by
+                let other = keys[(i + 1) % keys.len()].clone();
+                if bfirst_prepared {
+                    session.batch(&batch, ((k.clone(), i as i32), (other, -1i32))).await.is_ok()
+                } else {
+                    session.batch(&batch, ((), (k.clone(), i as i32))).await.is_ok()
+                }
+            } else if pages == 2 {
+                // read the stream to its end: one row per page
+                match session.execute_iter(ps.clone(), (k.clone(),)).await {
+                    Err(_) => false,
+                    Ok(pager) => match pager.rows_stream::<(Vec<u8>, i32)>() {
+                        Err(_) => false,
+                        Ok(mut stream) => {
+                            let mut rows = 0;
+                            let mut ok = true;
+                            while let Some(item) = stream.next().await {
+                                match item {
+                                    Ok(_) => rows += 1,
+                                    Err(_) => {
+                                        ok = false;
+                                        break;
+                                    }
+                                }
+                            }
+                            ok && rows == 2
+                        }
+                    },
+                }
+            } else {
+              match (api_iter, marks) {
                 (false, 2) => session.execute_unpaged(&ps, (k.clone(), i as i32)).await.is_ok(),
                 (false, 1) => session.execute_unpaged(&ps, (k.clone(),)).await.is_ok(),
                 (false, _) => session.execute_unpaged(&ps, ()).await.is_ok(),
                 (true, 2) => session.execute_iter(ps.clone(), (k.clone(), i as i32)).await.is_ok(),
                 (true, 1) => session.execute_iter(ps.clone(), (k.clone(),)).await.is_ok(),
                 (true, _) => session.execute_iter(ps.clone(), ()).await.is_ok(),
+              }
             };
             if !ok {
                 failed += 1;
             }
         }
-        if marks == 0 || tab_known == 0 {
-            // no partition key / a table the metadata does not know: not token-aware, nothing of the routing may be
-            // judged - but every request must have been sent
-            let sent = cluster.user_frames().into_iter().filter(|f| f.seq > start && matches!(&f.parsed, Parsed::Execute { .. })).count();
+        if marks == 0 || tab_known == 0 || (api_batch && !bfirst_prepared) {
+            // no partition key / a table the metadata does not know / a batch whose first statement is not prepared:
+            // not token-aware, nothing of the routing may be judged - but every request must have been sent
+            let sent = cluster
+                .user_frames()
+                .into_iter()
+                .filter(|f| f.seq > start && if api_batch { matches!(&f.parsed, Parsed::Batch { .. }) } else { matches!(&f.parsed, Parsed::Execute { .. }) })
+                .count();
             if sent < keys.len() {
-                ctx.fail(format!("e2e route: {} token-unaware requests, only {} EXECUTE frames arrived", keys.len(), sent));
+                ctx.fail(format!("e2e route: {} token-unaware requests, only {} request frames arrived", keys.len(), sent));
             }
             continue;
         }
         let frames: Vec<Req> = cluster.user_frames().into_iter().filter(|f| f.seq > start).collect();
         let conns = cluster.conns();
+        // the shard clause for one frame: the sharding parameters are the ones the node reported on the connection the
+        // frame arrived on (after a restart: the new ones - every connection of the old incarnation is gone)
+        let shard_verdict = |f: &Req, tok: i64| -> ShardVerdict {
+            let Some((n, msb)) = f.sharding else { return ShardVerdict::Ok };
+            let s = shard_of(tok, n, msb);
+            if nat != 0 {
+                // the pools may be incomplete: the claim holds "whenever the pool has" a connection of that shard -
+                // judged only if the node had one that was READY well before the first request and still open
+                let settled = std::time::Duration::from_millis(100);
+                let had = conns.iter().any(|c| {
+                    c.node == f.node
+                        && !c.control
+                        && c.shard == Some(s)
+                        && c.ready_at.is_some_and(|r| r + settled <= start_at)
+                        && c.closed_at.is_none_or(|x| x > f.at)
+                });
+                if !had {
+                    return ShardVerdict::NoConn;
+                }
+            }
+            if f.shard != Some(s) {
+                return ShardVerdict::Wrong(format!("arrived at node {} on a connection of shard {:?}, the owning shard is {} of {} (ignore_msb {})", f.node, f.shard, s, n, msb));
+            }
+            ShardVerdict::Ok
+        };
+        let lwt_routed = lwt == 1 || lwtmark == 1;
         for (i, k) in keys.iter().enumerate() {
-            let mine: Vec<&Req> = frames
-                .iter()
-                .filter(|f| matches!(&f.parsed, Parsed::Execute { params, .. } if params.values.first() == Some(&Some(k.clone()))))
-                .collect();
+            let carries_key = |f: &Req, later_page: bool| match &f.parsed {
+                Parsed::Execute { params, .. } if !api_batch => params.values.first() == Some(&Some(k.clone())) && params.paging_state.is_some() == later_page,
+                // a batch is recognised (and routed) by its FIRST statement
+                Parsed::Batch { statements, .. } if api_batch && !later_page => {
+                    matches!(statements.first(), Some(crate::mocknode::BatchStmt::Prepared(_, vals)) if vals.first() == Some(&Some(k.clone())))
+                }
+                _ => false,
+            };
+            let mine: Vec<&Req> = frames.iter().filter(|f| carries_key(f, false)).collect();
             // the FIRST frame of the logical request (there is exactly one unless an attempt failed)
-            let Some(f) = mine.first().copied() else { continue };
+            let Some(f) = mine.first().copied() else {
+                if api_batch || pages == 2 {
+                    ctx.fail(format!("e2e route: no request frame for key #{} arrived", i));
+                }
+                continue;
+            };
             let tok = token_of(k);
             let reps = replicas(&nodes, &shape.strat, tok);
             let want: Vec<usize> = if pref > 0 {
@@ -343,8 +567,8 @@ pub fn run(words: &[&str], ctx: &mut Ctx) -> String {
                     // no permitted replica: the request must at least stay in the preferred datacenter
                     if nodes[f.node].dc != dc {
                         ctx.fail(format!(
-                            "e2e route: key #{} went to node {} outside the preferred datacenter {} although failover is not permitted",
-                            i, f.node, dc
+                            "e2e route: key #{} went to node {} outside the preferred datacenter {} although failover is not permitted{}",
+                            i, f.node, dc, if spref > 0 { " (the preference is the statement's own)" } else { "" }
                         ));
                     }
                     continue;
@@ -355,51 +579,85 @@ pub fn run(words: &[&str], ctx: &mut Ctx) -> String {
             if want.is_empty() {
                 continue;
             }
-            if lwt == 1 && matches!(shape.strat, Strat::Simple(_)) && reps.first() != Some(&f.node) {
+            if lwt_routed && matches!(shape.strat, Strat::Simple(_)) && reps.first() != Some(&f.node) {
                 ctx.fail(format!(
-                    "e2e route: key #{} (token {}) is routed as an LWT and must first go to the primary replica {:?}, it went to node {} (replicas in ring order {:?})",
-                    i, tok, reps.first(), f.node, reps
+                    "e2e route: key #{} (token {}) is routed as an LWT ({}) and must first go to the primary replica {:?}, it went to node {} (replicas in ring order {:?})",
+                    i, tok, if lwtmark == 1 { "PREPARED carried the LWT mark" } else { "serial consistency" }, reps.first(), f.node, reps
                 ));
                 continue;
             }
             if !want.contains(&f.node) {
                 ctx.fail(format!(
-                    "e2e route: key #{} (token {}) first went to node {} which is not among the permitted replicas {:?} (all replicas {:?})",
-                    i, tok, f.node, want, reps
+                    "e2e route: key #{} (token {}) first went to node {} which is not among the permitted replicas {:?} (all replicas {:?}){}",
+                    i, tok, f.node, want, reps, if spref > 0 { " - the preference is the statement's own" } else { "" }
                 ));
                 continue;
             }
             at_replica += 1;
-            // the sharding parameters the node reported on the connection the frame arrived on (after a restart: the new
-            // ones - every connection of the old incarnation is gone)
-            if let Some((n, msb)) = f.sharding {
-                let s = shard_of(tok, n, msb);
-                if nat != 0 {
-                    // the pools may be incomplete: the claim holds "whenever the pool has" a connection of that shard -
-                    // judged only if the node had one that was READY well before the first request and still open
-                    let settled = std::time::Duration::from_millis(100);
-                    let had = conns.iter().any(|c| {
-                        c.node == f.node
-                            && !c.control
-                            && c.shard == Some(s)
-                            && c.ready_at.is_some_and(|r| r + settled <= start_at)
-                            && c.closed_at.is_none_or(|x| x > f.at)
-                    });
-                    if !had {
-                        unjudged += 1;
-                        continue;
-                    }
+            match shard_verdict(f, tok) {
+                ShardVerdict::Ok => {}
+                ShardVerdict::NoConn => {
+                    unjudged += 1;
+                    continue;
                 }
-                if f.shard != Some(s) {
+                ShardVerdict::Wrong(what) => {
                     ctx.fail(format!(
-                        "e2e route: key #{} (token {}) arrived at node {} on a connection of shard {:?}, the owning shard is {} of {} (ignore_msb {}){}",
-                        i, tok, f.node, f.shard, s, n, msb, if phase == 1 { " - after the node restarted with new sharding parameters" } else { "" }
+                        "e2e route: key #{} (token {}) {}{}",
+                        i, tok, what, if phase == 1 { " - after the node restarted with new sharding parameters" } else { "" }
                     ));
                     continue;
                 }
             }
             at_shard += 1;
+            if pages == 2 {
+                // pages after the first: the request for page 2 goes to the coordinator of page 1 (an owner, judged
+                // above) - or to an owner; that node says "is bootstrapping", so the SAME page is asked for again on the
+                // next target of the plan built from the pager's pages-2+ routing information: another permitted
+                // replica while there is one, on its owning shard
+                let later: Vec<&Req> = frames.iter().filter(|f| carries_key(f, true)).collect();
+                let (Some(f1), Some(f2)) = (later.first().copied(), later.get(1).copied()) else {
+                    ctx.fail(format!("e2e route: key #{}: {} request(s) for page 2 arrived, 2 expected (the first was answered \"is bootstrapping\")", i, later.len()));
+                    continue;
+                };
+                let same = f1.node == f.node && f1.shard == f.shard;
+                let owner = want.contains(&f1.node) && matches!(shard_verdict(f1, tok), ShardVerdict::Ok);
+                if !same && !owner {
+                    ctx.fail(format!(
+                        "e2e route: key #{} (token {}): page 2 was first asked of node {} shard {:?} - neither the coordinator of page 1 (node {} shard {:?}) nor an owner (permitted replicas {:?})",
+                        i, tok, f1.node, f1.shard, f.node, f.shard, want
+                    ));
+                    continue;
+                }
+                let others: Vec<usize> = want.iter().copied().filter(|r| *r != f.node).collect();
+                if others.is_empty() {
+                    // no other permitted replica: the plan continues with non-replicas, any of them
+                    page2 += 1;
+                    continue;
+                }
+                if lwt_routed && matches!(shape.strat, Strat::Simple(_)) && others.first() != Some(&f2.node) {
+                    ctx.fail(format!(
+                        "e2e route: key #{} (token {}): page 2, routed as an LWT, was retried on node {} - the next replica in ring order is {:?} (ring order {:?})",
+                        i, tok, f2.node, others.first(), reps
+                    ));
+                    continue;
+                }
+                if !others.contains(&f2.node) {
+                    ctx.fail(format!(
+                        "e2e route: key #{} (token {}): page 2 was retried on node {} which is not among the remaining permitted replicas {:?} (all replicas {:?}, page 1 answered by {})",
+                        i, tok, f2.node, others, reps, f.node
+                    ));
+                    continue;
+                }
+                if let ShardVerdict::Wrong(what) = shard_verdict(f2, tok) {
+                    ctx.fail(format!("e2e route: key #{} (token {}): the retried request for page 2 {}", i, tok, what));
+                    continue;
+                }
+                page2 += 1;
+            }
         }
+        }
+        if pages == 2 {
+            return format!("route keys={} replica={} shard={} noconn={} failed={} restarts={} page2={}", total_keys, at_replica, at_shard, unjudged, failed, restarts.len(), page2);
         }
         format!("route keys={} replica={} shard={} noconn={} failed={} restarts={}", total_keys, at_replica, at_shard, unjudged, failed, restarts.len())
     })
